@@ -385,6 +385,31 @@ func (cm *CMap) parseBfRangeSection(section string) error {
 		if dstHex == "" {
 			continue
 		}
+
+		// A destination of more than one UTF-16 code unit (a surrogate pair, a
+		// ligature expansion such as <00660066>) is a string, not a number:
+		// successive codes increment its last byte. Expand such ranges into
+		// individual mappings.
+		if dst, err := hexStringBytes(dstHex); err == nil && len(dst) > 2 {
+			for code := startCode; code <= endCode; code++ {
+				offset := code - startCode
+				last := uint32(dst[len(dst)-1]) + offset
+				if last > 0xFF {
+					break // the last byte may not overflow within a range
+				}
+				entry := make([]byte, len(dst))
+				copy(entry, dst)
+				entry[len(entry)-1] = byte(last)
+				if unicode, err := hexToUnicode(hex.EncodeToString(entry)); err == nil {
+					cm.charMappings[code] = unicode
+				}
+				if code == endCode {
+					break // avoid wrapping when endCode is the maximum code
+				}
+			}
+			continue
+		}
+
 		dstUnicode, err3 := parseHexToUint32(dstHex)
 		if err3 != nil {
 			continue
@@ -532,6 +557,21 @@ func extractHexString(s string) string {
 		return s[1 : len(s)-1]
 	}
 	return ""
+}
+
+// hexStringBytes decodes the content of a hex string to bytes, ignoring
+// white space and padding an odd number of digits like hexToUnicode does.
+func hexStringBytes(hexStr string) ([]byte, error) {
+	hexStr = strings.Map(func(r rune) rune {
+		if r == ' ' || r == '\t' || r == '\n' || r == '\r' {
+			return -1
+		}
+		return r
+	}, hexStr)
+	if len(hexStr)%2 != 0 {
+		hexStr = "0" + hexStr
+	}
+	return hex.DecodeString(hexStr)
 }
 
 // parseHexToUint32 parses a hex string to uint32
